@@ -225,11 +225,54 @@ def accessor(ctx):
     ctx.sample(sub, {"ranges": [r[0] for r in ranges], "attributes": ["idx", "yidx", "ndays", "label", "start_date", "end_date", "raw", "linspace", "year", "month"]})
 
 
+def _axes_task(task, p):
+    """The accessor must not depend on the structure of the axis it sits on: every axis that is a subset (1..4 [5]
+    instants) of a 13-day lattice spanning four dekads across a year end - several instants in one dekad, skipped
+    dekads, ascending / descending / rotated order - element-wise against the scalar class."""
+    import itertools
+    import pandas as pd
+    import xarray as xr
+    Dekad = Dk()
+    sub = "axes"
+    k, thorough = task
+    lattice = [datetime(1999, 12, 2), datetime(1999, 12, 9), datetime(1999, 12, 10, 23, 59, 59), datetime(1999, 12, 11), datetime(1999, 12, 20, 12),
+               datetime(1999, 12, 21), datetime(1999, 12, 31, 23), datetime(2000, 1, 1), datetime(2000, 1, 5), datetime(2000, 1, 11), datetime(2000, 1, 25),
+               datetime(2000, 2, 11), datetime(2000, 2, 21)]
+    scal = {d: Dekad(d) for d in lattice}
+    n_axes = 0
+    for comb in itertools.combinations(range(len(lattice)), k):
+        orders = [comb, comb[::-1]] + ([comb[1:] + comb[:1]] if k >= 3 else [])
+        for order in orders:
+            days = [lattice[i] for i in order]
+            x = xr.DataArray(np.zeros(k, "int8"), dims="time", coords={"time": pd.DatetimeIndex(days)})
+            acc = x.time.dekad
+            n_axes += 1
+            exp = {"idx": [scal[d].idx for d in days], "yidx": [scal[d].yidx for d in days], "raw": [scal[d].raw for d in days],
+                   "label": [str(scal[d]) for d in days], "ndays": [scal[d].ndays for d in days],
+                   "start_date": [scal[d].start_date for d in days], "end_date": [scal[d].end_date for d in days]}
+            for a, e in exp.items():
+                try:
+                    got = list(getattr(acc, a).values)
+                except Exception as ex:
+                    p.violation(sub, {"attr": a, "axis": [str(d) for d in days]}, {"kind": "axes", "k": k}, f".dekad.{a} raised {type(ex).__name__}: {ex} on axis {[str(d) for d in days]}")
+                    continue
+                if a in ("start_date", "end_date"):
+                    got = [pd.Timestamp(g).to_pydatetime() if not isinstance(g, datetime) else g for g in got]
+                if got != e:
+                    j = next(i for i in range(k) if got[i] != e[i])
+                    p.violation(sub, {"attr": a, "axis": [str(d) for d in days], "t": str(days[j])}, {"kind": "axes", "k": k},
+                                f".dekad.{a} on axis {[str(d) for d in days]}: element {days[j]} -> {got[j]!r}, scalar class gives {e[j]!r}")
+    p.count(sub, evaluations=n_axes * 7, states=n_axes, traces_validated_against_impl=n_axes, nontrivial=n_axes)
+    if k == 3:
+        p.sample(sub, {"lattice": [str(d) for d in lattice], "subset_sizes": "1..4 (5)", "orders": ["ascending", "descending", "rotated"]})
+
+
 def run(ctx):
     tasks = [(y, min(10000, y + 50)) for y in range(1, 10000, 50)]
     ctx.pmap(_year_task, tasks)
     ctx.note("days", "0001-01-01..9999-12-31")
     ctx.note("dekads", "000101d1..999912d3")
+    ctx.pmap(_axes_task, [(k, ctx.thorough()) for k in range(5 if ctx.thorough() else 4, 0, -1)])
     accessor(ctx)
 
 
@@ -240,6 +283,8 @@ def replay(sub, case, p):
         else:
             y = case["raw"] // 36
         _year_task((y, y + 1), p)
+    elif case.get("kind") == "axes":
+        _axes_task((case["k"], False), p)
     else:
         class C:
             pass
